@@ -176,3 +176,22 @@ def run(ctx):
                                              for b2 in fk.blocks for st in b2["s"] if st[0] == "=" and st[2][0] == "use")) for c in clamp)
     ctx.ob("S4.CLAMP", "find_key_simd", okc, "right = right.min(cell_count) before the final loop" if okc else
            "the window returned by the kernel is not clamped to cell_count before the final loop", fk.loc())
+    found_needs_full_compare(ctx)
+
+
+def found_needs_full_compare(ctx):
+    """S5 FOUND-NEEDS-FULL-COMPARE: slots carry a zero-padded 4-byte prefix, so equal prefixes do not imply equal keys ("ab" and
+    "ab\\0" share one).  Every SearchResult::Found built by find_key_simd is dominated by a comparison of the full stored key with the
+    probe (Ord::cmp on byte slices)."""
+    m = ctx.m
+    f = m.fn(S + "find_key_simd")
+    cmps = [c for c in f.calls if c.name.rsplit("::", 1)[-1] == "cmp" and "[u8]" in c.full]
+    founds = [(bb, s) for bb, b in enumerate(f.blocks) for s in b["s"]
+              if s[0] == "=" and s[2][0] == "agg" and s[2][1] == "adt" and s[2][2].endswith("SearchResult") and s[2][3] == "Found"]
+    if not founds:
+        raise CheckError("find_key_simd builds no SearchResult::Found")
+    for k, (bb, s) in enumerate(founds):
+        ok = any(f.dominates(c.bb, bb) for c in cmps)
+        ctx.ob("S5.FOUND-NEEDS-FULL-COMPARE", "find_key_simd#%d" % k, ok, "Found is returned only after a full-key comparison" if ok else
+               "find_key_simd returns Found (L%s) on the strength of the 4-byte prefix alone: keys that differ only in trailing zero bytes "
+               "(or in length) are reported as present at another key's slot" % s[3], "%s:%s" % (f.file, s[3]))
